@@ -172,8 +172,8 @@ def run(run):
     run.outside = ["n > 4", "m > 3", "float64 rounding of the final dot products"]
     run.rule = ("one path per (dataset shape); one query per candidate ranking: exists valid scheme with impl != definition; "
                 "non-trivial = all (the precondition 'valid scheme' is satisfiable)")
-    validate_merge(run.seed, 40)
-    run.add_candidates(harness.pmap(merge_check, merges))
+    run.part("validate_merge", lambda: validate_merge(run.seed, 40))
+    run.pmap("merge_check", merge_check, merges)
     items = []
     for n, m, extra in sets:
         namings = [list(range(1, n + 1)), ["b", "a", "c", "d"][:n], [3, 1, 4, 2][:n]]
@@ -185,7 +185,7 @@ def run(run):
     r4 = shapes.rankings_over(4)
     for i in range(n4m2):
         items.append(((rnd.choice(r4), rnd.choice(r4)), [4, 2, 3, 1], 0 if i % 4 else 1))
-    run.add_candidates(harness.pmap(score_item, items, chunksize=4))
+    run.pmap("score_item", score_item, items, chunksize=4)
     run.extra["datasets"] = len(items)
 
 
